@@ -64,6 +64,9 @@ def apply_breach(case, solution, b):
     elif cls == 'BreakRelation':
         t2 = S['tours'][k2 - 1]
         P['plan'].setdefault('relations', []).append({'type': 'any', 'jobs': [stop['activities'][a - 1]['jobId']], 'vehicleId': t2['vehicleId'], 'shiftIndex': t2['shiftIndex']})
+    elif cls == 'BreakRelationFirstShift':
+        # no shiftIndex: "the first, zero indexed, shift" by default
+        P['plan'].setdefault('relations', []).append({'type': 'strict' if (k + s + a) % 2 else 'sequence', 'jobs': [stop['activities'][a - 1]['jobId']], 'vehicleId': tour['vehicleId']})
     elif cls == 'MisplaceBreak':
         act = stop['activities'][a - 1]
         tm = act.get('time') or {'start': stop['time']['arrival'], 'end': stop['time']['departure']}
